@@ -77,6 +77,8 @@ def sp_tokens(sp):
     k = sp[0]
     if k == "hist":
         return sp_tokens(sp[3])
+    if k == "wspecial":
+        return sp_tokens(sp[1])
     if k == "rv":
         return ["rv", str(len(sp[1]))] + [B(x) for x in sp[1]] + [B(x) for x in sp[2]]
     if k in ("so2", "so3", "klein"):
@@ -924,6 +926,10 @@ def apply_op(eff, op):
         return eff
 
     def g(n):
+        if n[0] in SPECIAL or n[0] == "wspecial":      # Torus / Moebius / Klein / Sphere: compounds of two components (1, 1)
+            base, ws = (n[1], list(n[2])) if n[0] == "wspecial" else (n, [1.0, 1.0])
+            ws[idx] = w
+            return ("wspecial", base, tuple(ws))
         if n[0] == "spacetime":                 # a SpaceTimeStateSpace is a compound of (space, time) itself
             ws = list(st_weights(n))
             ws[idx] = w
@@ -969,7 +975,8 @@ def pre_expected(sp):
             node = eff
             for i in op[1]:
                 node = children(node)[i]
-            ws = list(st_weights(node)) if node[0] == "spacetime" else [w for w, _c in node[1]]
+            ws = (list(st_weights(node)) if node[0] == "spacetime" else list(node[2]) if node[0] == "wspecial" else
+                  [1.0, 1.0] if node[0] in SPECIAL else [w for w, _c in node[1]])
             out.append(" ".join(["w", str(len(ws))] + [B(w) for w in ws]))
         elif op[0] in ("setweight", "setweightn") and op[3] < 0.0:
             out.append("bad-op")
@@ -1042,6 +1049,11 @@ def rand_history(r, base):
                         eff = apply_op(eff, ops[-1])
                         m = 2 if node[2] == "se2" else 3
                         ops.append(("setbounds", cpath, [-h] * m, [h] * m))
+        elif (n[0] in SPECIAL or n[0] == "wspecial") and all(m[0] == "cforest" for q, m in cand if len(q) < len(path) and tuple(path[:len(q)]) == tuple(q)):
+            # setSubspaceWeight on a Torus / Moebius / Klein / Sphere space (top level or under CForest wrappers: modelled there)
+            ops.append((r.choice(["setweight", "setweightn"]), path, r.below(2), r.choice([0.1, 0.25, 0.5, 2.0, 3.0, 1e-3, 1e3])))
+            eff = apply_op(eff, ops[-1])
+            ops.append(("weights", path))
         elif n[0] == "spacetime":
             idx = r.below(2)
             ops.append((r.choice(["setweight", "setweightn"]), path, idx, r.choice([0.25, 2.0, 0.0, 1e-16, 1e-300, 5e-324, 1e6])))
@@ -1108,12 +1120,23 @@ def history_spaces(r, n_random):
         make_hist(("spacetime", 1.0, 0.5, (0.0, 5.0), rv2), [("setweight", (), 1, 1e-16), ("setbounds", (1,), [0.0], [1e17]), ("weights", ())]),
         make_hist(("spacetime", 1.0, 0.5, (0.0, 5.0), se2), [("setup",), ("setweightn", (), 0, 5e-324), ("setweight", (), 1, 3.0), ("weights", ())]),
         make_hist(("spacetime", 2.0, 0.25, None, ("so2",)), [("setweight", (), 0, -1.0), ("setweight", (), 0, 0.0), ("weights", ())]),
+        # the special spaces are compounds too: their distance() overrides use the weights only partly (F361)
+        make_hist(("mobius", 1.0, 1.0), [("weights", ()), ("setweight", (), 1, 0.1), ("weights", ())]),
+        make_hist(("mobius", 1.0, 1.0), [("setup",), ("setweightn", (), 0, 2.0), ("setweight", (), 1, 3.0), ("weights", ())]),
+        make_hist(("klein",), [("setweight", (), 0, 0.25), ("setweightn", (), 1, 0.25), ("weights", ())]),
+        make_hist(("klein",), [("setweight", (), 1, 2.0), ("setup",)]),
+        make_hist(("torus", 1.0, 0.5), [("setweight", (), 0, 0.1), ("setweight", (), 1, 0.1), ("weights", ())]),
+        make_hist(("torus", 2.0, 0.5), [("setup",), ("setweightn", (), 1, 3.0)]),
+        make_hist(("sphere", 3.0), [("setweight", (), 0, 0.1), ("setweight", (), 1, 5.0), ("weights", ())]),
+        make_hist(("cforest", ("mobius", 5.0, 1.0)), [("setweight", (0,), 1, 0.5), ("weights", (0,))]),
     ]
     for i in range(n_random):
         rr = r.fork("hist%d" % i)
         base = rand_compound(rr, rr.choice([1, 2, 2, 3])) if rr.chance(2, 3) else rr.choice(
             [se2, ("se3", [0.0] * 3, [2.0] * 3), ("wrap", se2), ("wrap", rv2), ("cforest", se2), ("projected", box3),
-             ("spacetime", 1.0, 0.5, (0.0, 5.0), rv2), ("spacetime", 0.5, rr.choice([0.3, 1e-16, 0.0, 1.0]), None, se2)])
+             ("spacetime", 1.0, 0.5, (0.0, 5.0), rv2), ("spacetime", 0.5, rr.choice([0.3, 1e-16, 0.0, 1.0]), None, se2),
+             ("mobius", rr.choice([1.0, 0.3, 5.0]), 1.0), ("klein",), ("torus", 1.0, 0.5), ("sphere", rr.choice([1.0, 3.0])),
+             ("cforest", ("mobius", 1.0, 1.0)), ("cforest", ("klein",))])
         if rr.chance(1, 4) and base[0] == "cmp":
             base = ("wrap", base)
         if nvals(base) > 40:
@@ -1215,7 +1238,7 @@ def angle_allow(sp):
     weights above it (1e-9 rad apart across the seam under an effective weight 1e9: distances 1, 1, 2 ± 4.4e-7).  The
     float-epsilon slack is relative to the distances (with an absolute floor of 1.2e-7), so it does not cover this once
     the weights are large: 4 ulp(2π) x effective weight for every unit with an SO(2) part."""
-    return sum(abs(w) * 4 * 8.9e-16 for usp, w, _n in units(sp) if usp[0] in ANGULAR and math.isfinite(w))
+    return sum(abs(w) * 4 * 8.9e-16 for usp, w, _n in units(sp) if unit_kind(usp) in ANGULAR and math.isfinite(w))
 
 
 def laws(sp, cl, ext, tr, res, count=None, scale=1.0):
@@ -1353,15 +1376,17 @@ def unit_outputs(ck, hbin, sp, tr):
         subs.append(sub)
         script += space_lines(usp, [sub])
     o, rc, err = run_bin_retry(ck, hbin, script)
-    per = 3 + OPS_PER_TRIPLE
-    if not o or len(o) < per * len(us):
+    if not o:
         return None
     out = []
+    pos = 0
     for j, (usp, w, n) in enumerate(us):
-        blk = o[j * per:(j + 1) * per]
-        if blk[0] != "ok":
+        pre = pre_lines(usp)
+        blk = o[pos:pos + pre + 2 + OPS_PER_TRIPLE]
+        pos += pre + 2 + OPS_PER_TRIPLE
+        if len(blk) < pre + 2 + OPS_PER_TRIPLE or blk[:pre] != pre_expected(usp):
             return None
-        cl, ext, ts = parse_block(blk[1:])
+        cl, ext, ts = parse_block(blk[pre:])
         if not ts or ts[0] is None or cl is None:
             return None
         out.append((usp, w, zs[j], subs[j], cl, ext, ts[0]))
@@ -1408,6 +1433,16 @@ def attribute(ck, hbin, sp, tr, law, idx, uo=None):
             tags["glued_boundary"] = bool(abs(abs(a_[0] - b_[0]) - PI) < 1e-12)
         if law == "positive" and usp[0] in IMPL_ONLY:
             tags.update(car_eps_class(usp, sub, law, vs[0][1]))
+        if law == "extent" and usp[0] == "hist" and usp[3][0] == "wspecial" and ext is not None:
+            # F361: the distance() overrides of Moebius / Klein / Torus ignore (some of) the weights that the inherited
+            # getMaximumExtent() applies.  Known only while the distance stays within the extent of the same space with every
+            # weight below 1 raised to 1 (what the unweighted branches can reach); beyond that it is something else.
+            tags["weights_changed"] = True
+            ws = [max(x, 1.0) for x in usp[3][2]]
+            k_ = usp[3][1]
+            e0, e1 = {"torus": (PI, PI), "mobius": (PI, 2.0 * (k_[1] if k_[0] == "mobius" else 0.0)), "klein": (PI, PI)}.get(k_[0], (0.0, 0.0))
+            bound = (ws[0] * e0 + ws[1] * e1) * scale
+            tags["within_unweighted_extent"] = bool(vs[0][2] + ext * scale <= bound + slack(bound, eps=space_eps(usp)))
         if law == "nonneg" and usp[0] == "vanaowen":
             # F138: -inf from an infinite vertical radius times a tiny negative altitude difference
             ia, ib = vs[0][1]
@@ -1512,7 +1547,9 @@ def report_violation(ck, hbin, sp, tr, v, tag):
     rec["culprit"] = culprit
     rec.update(extra)
     ck.report(rec, script=script, expected=model, observed=impl, engine="spacedist")
-    ck.log("property failure: law=%s culprit=%s %s in space %s" % (law, culprit, text, " ".join(sp_tokens(sp))[:120]))
+    back = " [the defect F360, fixed by bb83952a6, is back: getMaximumExtent drops a weight in (0, DBL_EPSILON)]" \
+        if rec.get("dropped_subeps_weight") else ""
+    ck.log("property failure: law=%s culprit=%s %s in space %s%s" % (law, culprit, text, " ".join(sp_tokens(sp))[:120], back))
     return True
 
 
@@ -1689,15 +1726,18 @@ def weighted_sum_check(ck, hbin, sp, triples, ts, state):
         i += n
         script += space_lines(usp, subs)
     o, rc, err = run_bin_retry(ck, hbin, script)   # one process for all units of this space
-    per = 3 + OPS_PER_TRIPLE * len(triples)
-    if not o or len(o) < per * len(us):
+    if not o:
         return
     ud = []                                          # ud[unit][triple] = D
+    pos = 0
     for j, (usp, w, n) in enumerate(us):
-        blk = o[j * per:(j + 1) * per]
-        if blk[0] != "ok":
+        pre = pre_lines(usp)
+        per = pre + 2 + OPS_PER_TRIPLE * len(triples)
+        blk = o[pos:pos + per]
+        pos += per
+        if len(blk) < per or blk[:pre] != pre_expected(usp):
             return
-        _cl, _ext, uts = parse_block(blk[1:])
+        _cl, _ext, uts = parse_block(blk[pre:])
         if len(uts) < len(triples) or any(res is None for res in uts):
             return
         ud.append([res[1] for res in uts])
@@ -1828,9 +1868,12 @@ def run(ck):
     ck.assumptions += ["theorems are over ℝ: IEEE rounding of the Float run is modelled (executed, compared bit for bit) but not verified",
                        "in-bounds for the theorems is the exact domain (box, [-π,π), unit quaternions); the code's satisfiesBounds "
                        "accepts an extra ε = 2^-52 (Rⁿ, time) resp. 1e-9 (SO(3) norm) around it",
-                       "compound weights: the laws are proved for all weights > 0 (no lower cut-off; SpaceTime: any two positive weights), the "
-                       "extent law for weights 0 or ≥ 2^-52 (in between the code drops the component from getMaximumExtent: F360, "
-                       "compound_extent_subeps_weight_fails); generated weights span 5e-324 … 1e100 incl. both sides of 2^-52",
+                       "compound weights: the laws are proved for all weights > 0 and the extent law for all weights >= 0 (no lower "
+                       "cut-off anywhere since bb83952a6; the former `>= epsilon` guard of getMaximumExtent is kept as `maxExtentOld`, "
+                       "witness compound_extent_subeps_weight_fails, and selected for the model when the tree under test still has it); "
+                       "generated weights span 5e-324 … 1e100 incl. both sides of 2^-52",
+                       "Torus / Moebius / Klein / Sphere with weights changed by setSubspaceWeight are modelled at top level and under "
+                       "CForest wrappers only (positive everyday weights)",
                        "positivity is not alarmed when the as-coded weighted sum underflows (a positive weight times a positive unit "
                        "distance below the smallest normal double, e.g. 5e-324 × 0.3 = 0; counted in input_distribution)",
                        "under an effective weight W the circle distance's one-ulp(2π) absolute rounding error is scaled to W·8.9e-16: the "
@@ -1840,6 +1883,7 @@ def run(ck):
                        "positivity is not alarmed for SO(2) pairs within 4e-15 of each other across the ±π seam (exact distance below "
                        "the double spacing at 2π; counted in input_distribution)"]
     hbin = ck.build_harness("spacedist", ["spacedist.cpp"], link_ompl=True)
+    ck.count("variant:getMaximumExtent-guard-" + ("old(>=epsilon)" if OLD_EXTENT else "fixed(>0)"))
     table, changed = claims_gen.generate(ck, hbin)
     ck.extra_cov["claims_table"] = {n: c for n, _s, c in table}
     ck.extra_cov["claims_file_rewritten"] = changed
@@ -1963,8 +2007,10 @@ MANIFEST = {
             "(`as_coded`), so a different wrong value is a violation. Compound weights are generated over their whole legal range "
             "(5e-324 ... 1e100, both sides of DBL_EPSILON, tiny weights on components with ranges up to 2e300, refused negative ones), "
             "the weighted-sum oracle folds the components' own distances as coded at every level with a relative tolerance, and "
-            "the weighted-sum clause is proved in closed form for every weight vector; getMaximumExtent's epsilon guard is a "
-            "kernel-checked finding (F360) with the repaired guard proved for all non-negative weights.",
+            "the weighted-sum clause is proved in closed form for every weight vector; the extent law is proved for every non-negative "
+            "weight vector (the former epsilon guard of getMaximumExtent, F360, is kept as a kernel-checked witness and as a "
+            "selectable model variant for older trees). Torus / Moebius / Klein / Sphere spaces whose weights were changed by "
+            "setSubspaceWeight are modelled as coded (F361: the overrides ignore weights the inherited extent applies).",
     "note": "Trusted: Lean kernel, the three standard axioms, the model outside the explored inputs, the harness, claims.py. "
             "Theorems are over the reals (rounding executed and compared, not verified). The metric theory of the car-like spaces "
             "is C14's; here they are lock-stepped and put to the oracle. Constrained spaces are exercised over sphere, plane and "
